@@ -15,6 +15,7 @@ import os
 import threading
 from abc import ABCMeta, abstractmethod
 from asyncio import get_running_loop
+from itertools import chain, islice
 from typing import AsyncGenerator, Iterable, Sequence, Union
 
 __all__ = [
@@ -119,6 +120,11 @@ class ThreadedHistory(History):
         # together in a consistent state.
         self._lock = threading.Lock()
 
+        # Number of `append_string()` calls so far. (Each of them inserts one
+        # item in front of `_loaded_strings`, which shifts the items that a
+        # `load()` call in progress has yielded already.)
+        self._appended_count = 0
+
         # Events created by each `load()` call. Used to wait for new history
         # entries from the loader thread.
         self._string_load_events: list[threading.Event] = []
@@ -146,6 +152,10 @@ class ThreadedHistory(History):
 
         items_yielded = 0
 
+        # Strings appended from now on are yielded last, after the strings that
+        # are in the history right now.
+        appended_before = self._appended_count
+
         try:
             while True:
                 # Wait for new items to be available.
@@ -163,8 +173,13 @@ class ThreadedHistory(History):
                 # Read new items (in lock).
                 def in_executor() -> tuple[list[str], bool]:
                     with self._lock:
-                        new_items = self._loaded_strings[items_yielded:]
+                        # (Skip what `append_string()` inserted in front of
+                        # the items that we yielded already.)
+                        appended = self._appended_count - appended_before
+                        new_items = self._loaded_strings[items_yielded + appended :]
                         done = self._loaded
+                        if done:
+                            new_items += self._loaded_strings[:appended]
                         event.clear()
                     return new_items, done
 
@@ -182,12 +197,21 @@ class ThreadedHistory(History):
 
     def _in_load_thread(self) -> None:
         try:
-            # Start with an empty list. In case `append_string()` was called
-            # before `load()` happened. Then `.store_string()` will have
-            # written these entries back to disk and we will reload it.
-            self._loaded_strings = []
+            with self._lock:
+                # Start with an empty list. In case `append_string()` was called
+                # before `load()` happened. Then `.store_string()` will have
+                # written these entries back to disk and we will reload it.
+                # (In the lock, together with the moment at which the backend
+                # looks at its storage: `append_string()` inserts and stores in
+                # this lock too, so that a string that is appended right now is
+                # either reloaded or kept in memory. Not both, and not neither.)
+                self._loaded_strings = []
+                strings = iter(self.history.load_history_strings())
+                # (A generator looks at its storage when the first item is
+                # requested.)
+                first = list(islice(strings, 1))
 
-            for item in self.history.load_history_strings():
+            for item in chain(first, strings):
                 with self._lock:
                     self._loaded_strings.append(item)
 
@@ -205,7 +229,8 @@ class ThreadedHistory(History):
     def append_string(self, string: str) -> None:
         with self._lock:
             self._loaded_strings.insert(0, string)
-        self.store_string(string)
+            self._appended_count += 1
+            self.store_string(string)
 
     # All of the following are proxied to `self.history`.
 
